@@ -2346,14 +2346,17 @@ CORPUS_EXPRS = [
     "[x async for x in y]", "-(a if b else c)", "not (lambda: a)", "(a, b)[0]", "a[::None]", "a if b else (c if d else e)",
     "(a if b else c) if d else e", "[x for x in (a if b else c)]", "[x for x in y if (a if b else c)]", "f(*a, *b, k=1)",
     "a < b < c", "(a < b) < c", "a and (b and c)", "-(-a)", "(-a) ** b", "a ** -b", "(a, *b, c)", "{a: b, c: d}", "()", "(a,)",
-    "a.b.c(d)[e]", "lambda x, y=1, *z, **w: (x, y, z, w)", "lambda: (yield)",
+    "a.b.c(d)[e]", "lambda x, y=1, *z, **w: (x, y, z, w)", "lambda: (yield)", "(-a).real", "(~a)[b]", "(+a)(b)",
+    "(not a).real", "lambda p, /, q=1, *r, k, kk=2, **kw: p", "{**a, b: c}", "f(*a, **k)",
 ]
 CORPUS_BLOCKS = [
     "def f(a, *b, c=1, **d):\n    return a, b, c, d\n", "g = lambda *a, k=1, **kw: (a, k, kw)\n", "y = [x for x in z]\nw = x\n",
     "def f(a=b):\n    return a\n", "@deco\ndef f():\n    pass\n", "class A(B):\n    x = y\n",
     "def f():\n    return [g(i) for i in y if h(i)]\n", "def f():\n    print(i)\n    i = 2\n", "del x\n", "x += 1\n",
     "import os.path\nfrom a import b as c\n", "try:\n    pass\nexcept E as e:\n    print(e)\n", "with a as b, c as (d, e):\n    pass\n",
-    "for i, (j, k) in z:\n    pass\nelse:\n    q = i\n", "def f(a, /, b):\n    return a + b\n", "x = (y := z) + y\n",
+    "for i, (j, k) in z:\n    pass\nelse:\n    q = i\n",
+    "def f():\n    def g():\n        return 1\n    x = g()\n    return x\ny = x\n",
+    "def f(p, /, a, *b, c=1, **d):\n    return lambda *q, r, **s: (p, a, b, c, d, q, r, s)\n", "def f(a, /, b):\n    return a + b\n", "x = (y := z) + y\n",
 ]
 
 
